@@ -1,10 +1,10 @@
 // generated from /repo/src/lib.rs by lib/e1.py — do not edit
-#[path = "/var/tmp/repo8/src/feature/mod.rs"]
+#[path = "/repo/src/feature/mod.rs"]
 mod feature;
-#[path = "/var/tmp/repo8/src/generator/mod.rs"]
+#[path = "/repo/src/generator/mod.rs"]
 mod generator;
-#[path = "/var/tmp/repo8/src/parser/mod.rs"]
+#[path = "/repo/src/parser/mod.rs"]
 mod parser;
 #[cfg(enum_tools_verif)]
-#[path = "/var/tmp/repo8/src/verif_seam.rs"]
+#[path = "/repo/src/verif_seam.rs"]
 mod verif_seam;
